@@ -30,3 +30,26 @@ __CPROVER_ensures(IMP(outptr != NULL, outptr[verif_snlen] == '}' && outptr[verif
 ;
 #endif
 #endif
+
+#if defined(SSW_CBMC) && defined(VERIF_JSON_EMPTY)
+/* ---- the whole line for an EMPTY result (no segments, no alignment): loop-free ---- */
+static int format_hyp(char *outptr, int len, decoder_t *decoder, double start, double duration)
+__CPROVER_requires(outptr == NULL || __CPROVER_w_ok(outptr, len))
+__CPROVER_assigns(outptr != NULL && len > 0: __CPROVER_object_whole(outptr))
+__CPROVER_ensures(__CPROVER_return_value == verif_snlen)
+;
+seg_iter_t *decoder_seg_iter(decoder_t *d)
+__CPROVER_requires(d != NULL) __CPROVER_assigns() __CPROVER_ensures(__CPROVER_return_value == NULL);
+long config_int(config_t *config, const char *name)
+__CPROVER_requires(1) __CPROVER_assigns() __CPROVER_ensures(__CPROVER_return_value == 100);
+/* "exactly as long as the buffer allocated for it ... stays valid for empty results": the line is hyp + ,"w":[ + ]}\n,
+ * its terminating NUL is the last byte of the block, and no byte is written outside the block (pointer obligations) */
+const char *decoder_result_json(decoder_t *d, double start, int align_level)
+__CPROVER_requires(__CPROVER_is_fresh(d, sizeof(*d)) && __CPROVER_is_fresh(d->acmod, sizeof(*d->acmod)) && d->json_result == NULL && align_level == 0)
+__CPROVER_requires(22 <= verif_snlen && verif_snlen <= 4000 && 0 <= d->acmod->output_frame && d->acmod->output_frame <= 1000000)
+__CPROVER_assigns(d->json_result)
+__CPROVER_ensures(__CPROVER_return_value != NULL && __CPROVER_return_value == d->json_result)
+__CPROVER_ensures(__CPROVER_OBJECT_SIZE(d->json_result) == (size_t)verif_snlen + 6 + 4)
+__CPROVER_ensures(d->json_result[verif_snlen + 6] == ']' && d->json_result[verif_snlen + 7] == '}' && d->json_result[verif_snlen + 8] == '\n' && d->json_result[verif_snlen + 9] == '\0')
+;
+#endif
